@@ -167,6 +167,15 @@ class P:
         return out
 
     def run_impl(self, lines):
+        # the ill-typed-environment cases END the driver process when the collector refuses to start (that is their expected outcome):
+        # they are run apart, a few at a time, so that they do not use up the restarts the driver allows for one batch
+        ill = [l for l in lines if l in getattr(self, "illtyped", ())]
+        if ill and len(ill) < len(lines):
+            rest = [l for l in lines if l not in set(ill)]
+            got = dict(zip(rest, self.run_impl(rest)))
+            for k in range(0, len(ill), 30):
+                got.update(zip(ill[k:k + 30], self.run_impl(ill[k:k + 30])))
+            return [got[l] for l in lines]
         res = vf.run_driver([self.cases_json[l] for l in lines])
         out = []
         for r in res:
